@@ -139,7 +139,8 @@ def main(prop: str, tier: str, seed: int, replay: str | None = None) -> int:
     judged = {m: agg["counters"].get(f"{m}|held", 0) + agg["counters"].get(f"{m}|violated", 0)
               for m in deciding}
     reach_req = getattr(mod, "REQUIRED_REACH", {}).get(tier, [])
-    reach_missing = [r for r in reach_req if agg["reach"].get(r, 0) == 0 and agg["counters"].get(r, 0) == 0]
+    reach_missing = [r for r in reach_req if agg["reach"].get(r, 0) == 0 and agg["counters"].get(r, 0) == 0
+                     and agg["counters"].get(f"reach.unlocatable.{r}", 0) == 0]
     inconclusive = []
     if not replay:
         if agg["timeouts"]:
